@@ -343,6 +343,16 @@ package domain
 //@   requires db.idx.indexPersist != nil && db.idx.indexPersist.p != nil && db.idx.indexPersist.idx == db.idx
 //@   ensures 0 <= db.idx.persistHead && db.idx.persistHead <= len(db.idx.mu.pointers)
 //@   modifies db.idx
+//@   # Interference between the index lookups (read lock) and the rewrite (write lock): the index may
+//@   # have been changed by other goroutines. Rely (assumed): it is still well-formed, it did not
+//@   # shrink, and the two pointers located before are still in it (deleteLock excludes other deletes
+//@   # and the caller holds an absolute control gate over the range, so no writer extends them).
+//@   let_after "db.idx.mu.Lock()" n0 int = len(db.idx.mu.pointers)
+//@   havoc_after "db.idx.mu.Lock()" &db.idx.mu
+//@   havoc_after "db.idx.mu.Lock()" &db.idx.persistHead
+//@   assume_after "db.idx.mu.Lock()" WF(db.idx.mu.pointers) && len(db.idx.mu.pointers) >= n0 && 0 <= db.idx.persistHead && db.idx.persistHead <= len(db.idx.mu.pointers) && (exists i int :: 0 <= i && i < len(db.idx.mu.pointers) && db.idx.mu.pointers[i] == start) && (exists j int :: 0 <= j && j < len(db.idx.mu.pointers) && db.idx.mu.pointers[j] == end)
+//@   # Guarantee: after the re-location the positions used for the rewrite hold exactly those pointers
+//@   assert_before "ok, err := validateDelete(" db.idx.mu.pointers[startDomain] == start && db.idx.mu.pointers[endDomain] == end
 //@   loop 0 invariant 0 <= startDomain && startDomain <= i && endDomain < len(db.idx.mu.pointers)
 //@   loop 0 modifies nothing
 //@   loop 1 modifies nothing
